@@ -278,6 +278,8 @@ def _run_built(ctx: RunContext, built: dict, configs: list[dict], variables=None
             text = re.sub(r"/tmp/tmp[A-Za-z0-9_]+", "/tmp/<tmpdir>", f"{type(exc).__name__}: {exc}")
             # (so are the simulator's run ids and object addresses that pydantic echoes from the input)
             text = re.sub(r"'run': \d+", "'run': <id>", text)
+            # (pydantic echoes a window of the input whose position depends on the length of that id)
+            text = re.sub(r"input_value=.*?, input_type=", "input_value=<...>, input_type=", text, flags=re.S)
             text = re.sub(r"0x[0-9a-fA-F]{6,}", "0x<addr>", text)
             ctx.exits.append(("exception", st["index"], text))
             ctx.last_exception = exc
